@@ -5,7 +5,7 @@ from sa.model import AnalysisError, Unknown, norm, unwrap, Program
 from sa.callgraph import Analysis, ExtVal, ClsVal
 from sa.query import Facts, call_name, find_calls, try_fold, calls_in, defs_of
 from sa.prov import Prov
-from .common import device_touching, manager_reachable
+from .common import device_touching, manager_reachable, protocol_classes, dongle_classes
 from .c06 import _strip
 
 TECHNIQUE = ("census of concurrency constructs (threads, timers, pools, processes, asyncio, threading/forking "
@@ -256,6 +256,58 @@ def run(run):
     glob = [n for n in ast.walk(mod.tree) if isinstance(n, (ast.Global, ast.Nonlocal))]
     run.check("R4", not glob, "no global statements in comm.server", key="comm.server|global", where=mod.relpath,
               message="comm.server uses global/nonlocal state")
+
+    # the objects that live across requests (the protocol and the dongle) keep nothing of a request: outside their constructors they only write the
+    # link / version bookkeeping attributes (closed world) - a reply or a device reading stored there could be served to another client's request
+    LONG_LIVED = {"_comm_issue": "link-failure flag", "_dongle_app_version": "bring-up", "_dongle_ui_version": "bring-up", "dongle": "transport handle",
+                  "last_comm_exception": "diagnostics"}
+    seen_cls = set()
+    n_w = 0
+    serving = set()       # what runs after construction: bring-up and request handling
+    for pc_ in protocol_classes(run):
+        roots_ = [(pc_.lookup(nm_)[2], pc_) for nm_ in ("handle_request", "initialize_device") if pc_.lookup(nm_) is not None]
+        serving |= {f.qualname for f, _ in A.reachable_functions(roots_)}
+    for root in protocol_classes(run) + dongle_classes(run):
+        for c_ in root.mro():
+            if not hasattr(c_, "methods") or c_.qualname in seen_cls:
+                continue
+            seen_cls.add(c_.qualname)
+            for mname, m in sorted(c_.methods.items()):
+                if mname == "__init__" or m.qualname not in serving:
+                    continue
+                for n_ in A.own_nodes(m):
+                    tg = []
+                    if isinstance(n_, ast.Assign):
+                        tg = n_.targets
+                    elif isinstance(n_, (ast.AugAssign, ast.AnnAssign)):
+                        tg = [n_.target]
+                    for t in tg:
+                        for x in (t.elts if isinstance(t, (ast.Tuple, ast.List)) else [t]):
+                            base = x
+                            while isinstance(base, ast.Subscript):
+                                base = base.value
+                            if isinstance(base, ast.Attribute) and isinstance(base.value, ast.Name) and base.value.id == "self":
+                                n_w += 1
+                                run.check("R4", base.attr in LONG_LIVED, f"{m.qualname}: self.{base.attr} is link / version bookkeeping",
+                                          key=f"{c_.name}|cross-request-state|{base.attr}", where=m.loc(n_),
+                                          message=f"{m.qualname} stores `{norm(n_)[:70]}` on an object that outlives the request: what one request leaves in "
+                                                  f"self.{base.attr} can be served to, or alter the handling of, another client's request")
+    run.floor("R4", "attribute writes of the long-lived protocol / dongle objects checked", n_w, 4)
+    # nor is anything memoised on the way of a request
+    memo = []
+    for fn_, sc_ in manager_reachable(run):
+        node = fn_.node
+        for d in getattr(node, "decorator_list", []):
+            dn = norm(d.func) if isinstance(d, ast.Call) else norm(d)
+            if dn.split(".")[-1] in ("lru_cache", "cache", "cached_property", "memoize", "memoized"):
+                memo.append((fn_, dn))
+    for mod_ in {f.module for f, _ in manager_reachable(run)}:
+        for st_ in mod_.tree.body:
+            if isinstance(st_, ast.Assign) and isinstance(st_.value, ast.Call) and norm(st_.value.func).split(".")[-1] in ("lru_cache", "cache"):
+                memo.append((None, norm(st_)[:60]))
+    run.check("R4", not memo, "no memoised function on the request path", key="manager|memoised-functions", where="middleware/comm/server.py",
+              message=f"memoised functions in the manager: {[(f.qualname if f else '<module>', d) for f, d in memo][:3]}: a cached object (e.g. a parsed request that "
+                      "the protocol layer modifies in place) is shared between the requests of different clients")
 
     # ---------------------------------------------------------------- R5
     run.rule("R5", "Every answer read belongs to the exchange just sent: an exchange that ends without its answer must be treated as a link failure "
